@@ -1,3 +1,3 @@
 From Verif Require Import Extract.C02s.
 Require Import ExtrOcamlBasic.
-Extraction "c02s_model.ml" c02s_sanitize c02s_printed c02s_coherent c02s_topo c02s_merge.
+Extraction "c02s_model.ml" c02s_sanitize c02s_printed c02s_coherent c02s_topo c02s_merge c02s_implicit.
